@@ -24,10 +24,8 @@ func c07Opts() (o specOpts, msg verif.Opts) {
 		// guards with every outcome, invalid and valid patterns, optional action
 		o = specOpts{actionMode: 1, noNilBranches: true, branches: 1, patMode: 1, withGuards: true, withInvalid: true, fixedErr: true,
 			actKinds: []int{aSet, aFail, aNilExe}, grdKinds: kindsC07, pooled: true, small: true}
-		if verif.Tier() > 0 {
-			// (two branches with free error settings did not finish in 15 minutes)
-			o.fixedErr = false
-		}
+		// (thorough: two branches with free error settings did not finish in 15 minutes, free error settings
+		// alone not in 10: the thorough tier adds a message, a step and - for Compile - a node and a branch)
 	}
 	return o, msg
 }
